@@ -63,6 +63,8 @@ type RootD struct {
 	Hidden string        `json:"hidden,omitempty"`
 	List   []int         `json:"list,omitempty"`
 	SubA   string        `json:"sub_a,omitempty"`
+	Short  string        `json:"short,omitempty"` // field tagged "id"
+	Long   string        `json:"long,omitempty"`  // field tagged "ID"
 	Any    *VD           `json:"any,omitempty"`
 }
 
@@ -92,12 +94,15 @@ type SeqCase struct {
 	Ops     []Op     `json:"ops"`
 }
 
-var bigUniverse = []string{"x", "y", "Plain", "tagged", "Tagged", "hidden", "List", "sub", "Sub", "any"}
-var smallUniverse = []string{"x", "Plain", "tagged", "hidden"}
+// The universes hold the names the ops bind plus names that are only ever read: both tags of the
+// pair "id"/"ID", and wrong-case spellings of tags and field names ("TAGGED", "tAGGED", "Id",
+// "PLAIN", "SUB"), which are neither a field name nor a tag and so must be absent unless bound.
+var bigUniverse = []string{"x", "y", "Plain", "tagged", "Tagged", "hidden", "List", "sub", "Sub", "any", "id", "ID", "Id", "TAGGED", "tAGGED", "PLAIN", "SUB", "ANY"}
+var smallUniverse = []string{"x", "Plain", "tagged", "hidden", "id", "ID", "TAGGED"}
 
 func (r RootD) data() any {
 	mk := func() rootT {
-		t := rootT{Plain: r.Plain, Tagged: r.Tagged, hidden: r.Hidden, Sub: subT{A: r.SubA}}
+		t := rootT{Plain: r.Plain, Tagged: r.Tagged, hidden: r.Hidden, Sub: subT{A: r.SubA}, Short: r.Short, Long: r.Long}
 		if r.List != nil {
 			t.List = append([]int{}, r.List...)
 		}
